@@ -34,6 +34,8 @@ def gen(rng, i, tier):
         phases=1.0, phase_conf=rng.choice([0.4, 0.7, 0.9]), sleep=0.8, iq=0.6, max_depth=rng.choice([3, 6]),
         rails=rng.choice([0.0, 0.3]), rt=0.3,
     )
+    if i % 5 == 3:
+        spec = G.variantise_phases(spec, rng)  # two phases that differ only in case / blanks
     return {"spec": spec, "tol": 1e-6, "ta": 25.0, "history": rng.choice(_rows.HISTORIES), "hseed": rng.randrange(1 << 30)}
 
 
